@@ -10,3 +10,22 @@ pub mod backend;
 pub mod diagnostics;
 
 pub use backend::IncanLanguageServer;
+
+/// Verification hook (compiled only with `--cfg incan_verif`): an in-memory log of the language
+/// server's receive / store events, read by the external verification harness.
+#[cfg(incan_verif)]
+pub mod verif_hooks {
+    use std::sync::Mutex;
+
+    static EVENTS: Mutex<Vec<String>> = Mutex::new(Vec::new());
+
+    pub fn log(event: String) {
+        if let Ok(mut events) = EVENTS.lock() {
+            events.push(event);
+        }
+    }
+
+    pub fn take() -> Vec<String> {
+        EVENTS.lock().map(|mut e| std::mem::take(&mut *e)).unwrap_or_default()
+    }
+}
